@@ -244,8 +244,20 @@ def run_network(ctx, ds, shape, s, ftype, upa_kind, upa_arr, upa_int, methods=ME
         except Exception as e:
             ctx.evaluations += 1
             ctx.count("upscale-raised:" + method)
+            # known finding F09c is one specific mechanism: the kernel itself returns a coarse network with a loop.
+            # Establish that on the kernel's own output; anything else that makes the wrapper raise is a new failure.
+            mech = ""
+            if method == "ihu" and "network is invalid" in str(e):
+                try:
+                    from pyflwdir import core as _core
+                    k_ds, _k_out, _k_shape = U.ihu(subidxs_ds=flw.idxs_ds, subuparea=flw._check_data(upa_arr, "uparea"),
+                                                   subshape=flw.shape, cellsize=s, mv=flw._mv)
+                    mech = " [kernel output has a coarse loop]" if _core.loop_indices(k_ds, mv=flw._mv).size > 0 else \
+                        " [kernel output is loop free]"
+                except Exception as e2:  # noqa: BLE001
+                    mech = f" [kernel raised {exc_class(e2)}]"
             ctx.fail(desc, "spec", f"upscale(method={method}) must succeed on a loop-free network with >= 2 coarse "
-                                   f"cells, raised {exc_class(e)}: {str(e)[:80]}")
+                                   f"cells, raised {exc_class(e)}: {str(e)[:80]}{mech}")
             continue
         cds = canon_idx(flw1.idxs_ds, n1) if flw1.idxs_ds.size == n1 else ints(flw1.idxs_ds)
         o = canon_idx(out, n)
@@ -522,7 +534,7 @@ def classify(f):
     if f.get("kind") == "spec" and d.get("op") == "upscale" and d.get("method") == "ihu":
         if "points to a missing coarse cell" in what:
             return "ihu-dangling-link"
-        if "must succeed" in what and "network is invalid" in what:
+        if "must succeed" in what and "network is invalid" in what and "[kernel output has a coarse loop]" in what:
             return "ihu-raises-invalid"
     return None
 
